@@ -226,9 +226,18 @@ uint8_t sign_of_numeral(const z3::expr& v)
     return (neg ? NONPOS : NONNEG) | NONZERO;
 }
 
+bool g_normalize = false;  // polynomial normal form (sum of monomials) for every new term: lets exact cancellations show
+
 Real mk(const z3::expr& e0, uint8_t sign, int sq = 0)
 {
     z3::expr e = e0;
+    if (g_normalize && !e.is_numeral())
+    {
+        z3::params p(ctx());
+        p.set("som", true);
+        p.set("hoist_mul", false);
+        e = e.simplify(p);
+    }
     // constant folding: a term without symbols is kept as an exact rational numeral
     if (!e.is_numeral() && syms_of(e).empty())
     {
@@ -1388,6 +1397,7 @@ Real prof_max()
     }
 }
 void set_max_decisions(int n) { g_max_decisions = n; }
+void set_normalize(bool on) { g_normalize = on; }
 void set_query_cap(double first, double portfolio)
 {
     g_cap_first = first;
@@ -1731,6 +1741,7 @@ std::vector<std::string> run_path(const Case& cs, const std::string& prefix)
     st.prefix = prefix;
     g_scope.clear();
     g_taint_prefix.clear();
+    g_normalize = false;
     g_def = Def::Check;
     std::string outcome = "completed";
     double t0 = now();
